@@ -1,5 +1,671 @@
 package main
 
-import "verif/engine/report"
+// Public-path binding of C03: a real Conn, created by the real handshake over an
+// in-memory pipe, talks to a scripted node written with the reference codec. The
+// requests are made with the public API (Session.Query / Bind options /
+// NewBatch); the node decodes every frame it receives with refcql and the
+// harness compares the decoded logical request with what the API call asked for.
 
-func runPublicPath(r *report.Run) {}
+import (
+	"bytes"
+	"encoding/json"
+	"fmt"
+	"io"
+	"net"
+	"strings"
+	"sync"
+	"time"
+
+	"github.com/gocql/gocql"
+	"github.com/golang/snappy"
+	"verif/engine/refcql/frame"
+	"verif/engine/report"
+)
+
+type received struct {
+	raw    []byte
+	header frame.Header
+	req    *frame.Request
+	err    error // header / decompression / decode error: the frame is malformed
+}
+
+type node struct {
+	conn    net.Conn
+	version int
+	auth    bool
+
+	mu  sync.Mutex
+	log []*received
+}
+
+func (n *node) take() []*received {
+	n.mu.Lock()
+	defer n.mu.Unlock()
+	l := n.log
+	n.log = nil
+	return l
+}
+
+func countMarkers(stmt string) int { return strings.Count(stmt, "?") }
+
+// serve reads frames until the pipe is closed.
+func (n *node) serve() {
+	defer n.conn.Close()
+	for {
+		first := make([]byte, 1)
+		if _, err := io.ReadFull(n.conn, first); err != nil {
+			return
+		}
+		hs := 9
+		if v := int(first[0] & 0x7f); v < 3 {
+			hs = 8
+		}
+		hdr := make([]byte, hs)
+		hdr[0] = first[0]
+		if _, err := io.ReadFull(n.conn, hdr[1:]); err != nil {
+			return
+		}
+		rc := &received{}
+		h, _, err := frame.ParseHeader(hdr)
+		rc.header = h
+		if err != nil || h.Length < 0 || h.Length > 64<<20 {
+			rc.raw, rc.err = hdr, fmt.Errorf("unusable header: %v (length %d)", err, h.Length)
+			n.mu.Lock()
+			n.log = append(n.log, rc)
+			n.mu.Unlock()
+			return // cannot resynchronise
+		}
+		body := make([]byte, h.Length)
+		if _, err := io.ReadFull(n.conn, body); err != nil {
+			return
+		}
+		rc.raw = append(hdr, body...)
+		plain := body
+		if h.Flags&frame.FlagCompression != 0 {
+			if plain, err = snappy.Decode(nil, body); err != nil {
+				rc.err = fmt.Errorf("snappy: %v", err)
+			}
+		}
+		if rc.err == nil {
+			if h.Version != n.version {
+				rc.err = fmt.Errorf("frame of protocol v%d on a v%d connection", h.Version, n.version)
+			} else {
+				rc.req, rc.err = frame.DecodeRequestBody(h, plain)
+			}
+		}
+		n.mu.Lock()
+		n.log = append(n.log, rc)
+		n.mu.Unlock()
+		n.respond(h, rc)
+	}
+}
+
+func (n *node) respond(h frame.Header, rc *received) {
+	v := n.version
+	resp := &frame.Response{Version: v, Stream: h.Stream}
+	lo, hi := frame.StreamRange(v)
+	if h.Stream < lo || h.Stream > hi {
+		return
+	}
+	switch {
+	case rc.err != nil:
+		resp.Msg = frame.Error{Code: frame.ErrProtocol, Message: "malformed request: " + rc.err.Error()}
+	default:
+		switch m := rc.req.Msg.(type) {
+		case *frame.Options:
+			resp.Msg = frame.Supported{Options: []frame.KL{{Key: "COMPRESSION", Values: []string{"snappy", "lz4"}}, {Key: "CQL_VERSION", Values: []string{"3.0.0"}}}}
+		case *frame.Startup:
+			if n.auth {
+				resp.Msg = frame.Authenticate{Class: "org.apache.cassandra.auth.PasswordAuthenticator"}
+			} else {
+				resp.Msg = frame.Ready{}
+			}
+		case *frame.AuthResponse, *frame.Credentials:
+			if v >= 2 {
+				resp.Msg = frame.AuthSuccess{}
+			} else {
+				resp.Msg = frame.Ready{}
+			}
+		case *frame.Register:
+			resp.Msg = frame.Ready{}
+		case *frame.Prepare:
+			cols := make([]frame.ColumnSpec, countMarkers(m.Statement))
+			for i := range cols {
+				cols[i] = frame.ColumnSpec{Keyspace: "ks", Table: "t", Name: fmt.Sprintf("c%d", i), Type: frame.Leaf(frame.TBlob)}
+			}
+			p := frame.ResultPrepared{ID: preparedID(16), Bind: frame.PreparedMetadata{GlobalTableSpec: true, GlobalKeyspace: "ks", GlobalTable: "t", Columns: cols}}
+			p.Result = frame.RowsMetadata{NoMetadata: v >= 2}
+			if v == 1 {
+				p.Result = frame.RowsMetadata{}
+			}
+			resp.Msg = p
+		case *frame.Query:
+			if strings.HasPrefix(m.Statement, "USE ") {
+				resp.Msg = frame.ResultSetKeyspace{Keyspace: strings.Trim(strings.TrimPrefix(m.Statement, "USE "), `"`)}
+			} else {
+				resp.Msg = frame.ResultVoid{}
+			}
+		default:
+			resp.Msg = frame.ResultVoid{}
+		}
+	}
+	enc, err := frame.Encode(resp)
+	if err != nil {
+		return
+	}
+	n.conn.Write(enc.Bytes())
+}
+
+// ---------------------------------------------------------------------------
+
+type liveVal struct {
+	Kind  int  `json:"kind"`
+	Named bool `json:"named,omitempty"`
+}
+
+type liveAsk struct {
+	What     string    `json:"what"` // query | batch | register | use | batch-v1
+	Stmt     string    `json:"stmt,omitempty"`
+	Vals     []liveVal `json:"vals,omitempty"`
+	Cons     uint16    `json:"cons"`
+	PageSize *int      `json:"page_size,omitempty"` // nil: session default (5000)
+	Paging   int       `json:"paging_len,omitempty"`
+	Serial   uint16    `json:"serial,omitempty"`
+	TS       int       `json:"ts_mode"` // tsNow = session default (DefaultTimestamp: true)
+	Payload  int       `json:"payload,omitempty"`
+	Trace    bool      `json:"trace,omitempty"`
+	NoSkip   bool      `json:"no_skip_metadata,omitempty"`
+	BType    byte      `json:"batch_type,omitempty"`
+	Entries  []struct {
+		Stmt string    `json:"stmt"`
+		Vals []liveVal `json:"vals,omitempty"`
+	} `json:"entries,omitempty"`
+}
+
+type nopTracer struct{}
+
+func (nopTracer) Trace([]byte) {}
+
+func apiValues(vals []liveVal) []interface{} {
+	out := make([]interface{}, len(vals))
+	for i, lv := range vals {
+		var v interface{}
+		switch lv.Kind {
+		case vNormal, vEmpty:
+			v = valueBytes(i, lv.Kind)
+		case vNull:
+			v = []byte(nil)
+		case vUnset:
+			v = gocql.UnsetValue
+		}
+		if lv.Named {
+			v = gocql.NamedValue(valueName(i), v)
+		}
+		out[i] = v
+	}
+	return out
+}
+
+func markers(n int) string {
+	if n == 0 {
+		return ""
+	}
+	return " WHERE " + strings.TrimSuffix(strings.Repeat("c = ? AND ", n), " AND ")
+}
+
+func liveParamAsk(la *liveAsk, vals []liveVal) paramAsk {
+	p := paramAsk{Cons: la.Cons, SkipMeta: !la.NoSkip, Paging: la.Paging, Serial: la.Serial, TS: la.TS, PageSize: 5000}
+	if la.PageSize != nil {
+		p.PageSize = *la.PageSize
+	}
+	if len(vals) > 0 {
+		p.Mode = modePositional
+		p.NVals = len(vals)
+		for _, v := range vals {
+			p.ValKinds = append(p.ValKinds, v.Kind)
+		}
+		if vals[0].Named {
+			p.Mode = modeNamed
+		}
+	}
+	return p
+}
+
+func liveAsks(version int) []liveAsk {
+	ip := func(n int) *int { return &n }
+	var out []liveAsk
+	conss := []uint16{0, 1, 2, 3, 4, 5, 6, 7, 10}
+	// non-DML statements go out as QUERY
+	for i, c := range conss {
+		la := liveAsk{What: "query", Stmt: fmt.Sprintf("TRUNCATE ks.t%d", i), Cons: c, TS: tsNow}
+		switch i % 4 {
+		case 1:
+			la.PageSize, la.TS = ip(0), tsOff
+		case 2:
+			la.PageSize, la.Paging, la.Serial, la.TS = ip(17), 3, 8, tsFixed
+		case 3:
+			la.Serial, la.TS, la.Trace = 9, tsNegative, true
+		}
+		out = append(out, la)
+		if version >= 4 {
+			la.Payload = 1 + i%2
+			la.Stmt += " /*p*/"
+			out = append(out, la)
+		}
+	}
+	// DML statements are prepared and go out as PREPARE + EXECUTE
+	n := 0
+	for _, vals := range [][]liveVal{nil, {{Kind: vNormal}}, {{Kind: vNull}}, {{Kind: vUnset}}, {{Kind: vEmpty}},
+		{{Kind: vNormal}, {Kind: vNull}}, {{Kind: vUnset}, {Kind: vEmpty}}, {{Kind: vEmpty}, {Kind: vNormal}},
+		{{Kind: vNormal, Named: true}}, {{Kind: vNull, Named: true}, {Kind: vNormal, Named: true}}, {{Kind: vUnset, Named: true}, {Kind: vEmpty, Named: true}}} {
+		for variant := 0; variant < 4; variant++ {
+			la := liveAsk{What: "query", Stmt: fmt.Sprintf("SELECT a FROM ks.t%d%s", n, markers(len(vals))), Vals: vals, Cons: conss[n%len(conss)], TS: tsNow}
+			switch variant {
+			case 1:
+				la.PageSize, la.TS, la.NoSkip = ip(0), tsOff, true
+			case 2:
+				la.PageSize, la.Paging, la.Serial, la.TS, la.Trace = ip(100), 300, 9, tsFixed, true
+			case 3:
+				la.Serial, la.TS = 8, tsNegative
+				if version >= 4 {
+					la.Payload = 2
+				}
+			}
+			n++
+			out = append(out, la)
+		}
+	}
+	// batches
+	if version >= 2 {
+		type ent = struct {
+			Stmt string    `json:"stmt"`
+			Vals []liveVal `json:"vals,omitempty"`
+		}
+		shapes := [][]ent{
+			{},
+			{{Stmt: "INSERT INTO ks.b (a) VALUES (1)"}},
+			{{Stmt: "INSERT INTO ks.b (a) VALUES (?)", Vals: []liveVal{{Kind: vNormal}}}},
+			{{Stmt: "INSERT INTO ks.b (a, b) VALUES (?, ?)", Vals: []liveVal{{Kind: vNull}, {Kind: vEmpty}}}, {Stmt: "UPDATE ks.b SET a = 1"}},
+			{{Stmt: "UPDATE ks.b SET x = ? WHERE k = ?", Vals: []liveVal{{Kind: vUnset}, {Kind: vNormal}}}, {Stmt: "INSERT INTO ks.b (a) VALUES (?)", Vals: []liveVal{{Kind: vNormal}}}},
+		}
+		for i, sh := range shapes {
+			for variant := 0; variant < 3; variant++ {
+				la := liveAsk{What: "batch", BType: byte((i + variant) % 3), Cons: conss[(i+variant)%len(conss)], TS: tsNow, Entries: sh}
+				switch variant {
+				case 1:
+					la.Serial, la.TS, la.Trace = 8, tsFixed, true
+				case 2:
+					la.Serial, la.TS = 9, tsOff
+					if version >= 4 {
+						la.Payload = 1
+					}
+				}
+				out = append(out, la)
+			}
+		}
+	} else {
+		out = append(out, liveAsk{What: "batch-v1", Cons: 1})
+	}
+	out = append(out, liveAsk{What: "register"})
+	return out
+}
+
+func bad(r *report.Run, key, detail string, replay interface{}) {
+	r.Violation("live:"+key, detail, replay)
+}
+
+// checkFrames compares the frames the node received during one API call with the expected sequence.
+func checkFrames(r *report.Run, cfgName string, la *liveAsk, got []*received, exp []*ask, exs []*expectation) bool {
+	replay := map[string]interface{}{"connection": cfgName, "ask": la}
+	var frames []*received
+	for _, g := range got {
+		if g.err == nil && g.req != nil {
+			if _, ok := g.req.Msg.(*frame.Options); ok {
+				continue // heartbeat
+			}
+		}
+		frames = append(frames, g)
+	}
+	for _, g := range frames {
+		if g.err != nil {
+			bad(r, fmt.Sprintf("%s:malformed:%s", frame.OpName(g.header.Op), errClass(g.err)), fmt.Sprintf("%v | frame %s", g.err, hexTrunc(g.raw)), replay)
+			return false
+		}
+	}
+	if len(frames) != len(exp) {
+		var ops []string
+		for _, g := range frames {
+			ops = append(ops, frame.OpName(g.header.Op))
+		}
+		bad(r, la.What+":unexpected-frame-sequence", fmt.Sprintf("node received %v, expected %d frames", ops, len(exp)), replay)
+		return false
+	}
+	for i, g := range frames {
+		a, ex := exp[i], exs[i]
+		kn := kindNames[a.Kind]
+		if g.header.Op != kindOps[a.Kind] {
+			bad(r, kn+":header.opcode", fmt.Sprintf("opcode %s, expected %s", frame.OpName(g.header.Op), kn), replay)
+			return false
+		}
+		wantFlags := byte(0)
+		if a.Tracing {
+			wantFlags |= frame.FlagTracing
+		}
+		if a.Version >= 5 {
+			wantFlags |= frame.FlagBeta
+		}
+		if ex.expectPayload != nil {
+			wantFlags |= frame.FlagCustomPayload
+		}
+		if gotf := g.header.Flags &^ frame.FlagCompression; gotf != wantFlags {
+			bad(r, kn+":header.flags", fmt.Sprintf("flags 0x%02x, expected 0x%02x (+compression)", g.header.Flags, wantFlags), replay)
+			return false
+		}
+		if !sameKBSet(g.req.CustomPayload, ex.expectPayload) {
+			bad(r, kn+":field:custom_payload", fmt.Sprintf("payload %v, asked %v", g.req.CustomPayload, ex.expectPayload), replay)
+			return false
+		}
+		if f, d := cmpMsg(g.req.Msg, ex.msg, ex); f != "" {
+			bad(r, kn+":field:"+f, d+" | frame "+hexTrunc(g.raw), replay)
+			return false
+		}
+	}
+	return true
+}
+
+func runPublicPath(r *report.Run) {
+	start := time.Now()
+	var frames, calls, conns int64
+	liveOutcomes := map[string]int64{}
+
+	// guard probe: BATCH does not exist in v1
+	for v := 1; v <= 5; v++ {
+		err := gocql.VerifBatchGuard(v)
+		r.Case(fmt.Sprintf("batch-guard-v%d", v), true)
+		if v == 1 && err == nil {
+			r.Violation("BATCH:v1:sent-although-opcode-undefined-in-v1", "Conn.executeBatch does not refuse a batch on a protocol v1 connection", map[string]int{"version": v})
+		}
+		if v >= 2 && err != nil {
+			r.Violation("BATCH:refused-in-version-that-defines-it", fmt.Sprintf("v%d: %v", v, err), map[string]int{"version": v})
+		}
+	}
+
+	for v := 1; v <= 5; v++ {
+		for _, comp := range []bool{false, true} {
+			for _, auth := range []bool{false, true} {
+				for _, useKS := range []bool{false, true} {
+					cfgName := fmt.Sprintf("v%d snappy=%v auth=%v use_keyspace=%v", v, comp, auth, useKS)
+					n, c, f := liveConnection(r, cfgName, v, comp, auth, useKS, liveOutcomes)
+					conns += n
+					calls += c
+					frames += f
+				}
+			}
+		}
+	}
+	r.Extra("live_connections", conns)
+	r.Extra("live_api_calls", calls)
+	r.Extra("live_frames_decoded", frames)
+	r.Extra("live_outcomes", liveOutcomes)
+	r.Extra("live_phase_seconds", time.Since(start).Seconds())
+}
+
+func liveConnection(r *report.Run, cfgName string, v int, comp, auth, useKS bool, outcomes map[string]int64) (conns, calls, frames int64) {
+	cl, sv := net.Pipe()
+	nd := &node{conn: sv, version: v, auth: auth}
+	go nd.serve()
+	cfg := *gocql.NewCluster("127.0.0.1")
+	cfg.ProtoVersion = v
+	cfg.Timeout, cfg.ConnectTimeout = 20*time.Second, 20*time.Second
+	if comp {
+		cfg.Compressor = gocql.SnappyCompressor{}
+	}
+	if auth {
+		cfg.Authenticator = gocql.PasswordAuthenticator{Username: "user", Password: "pass"}
+	}
+	live, err := gocql.VerifDial(cl, cfg)
+	hs := nd.take()
+	conns = 1
+	r.Case("live-handshake:"+cfgName, err == nil)
+	replay := map[string]interface{}{"connection": cfgName, "ask": "handshake"}
+	// handshake oracle: every frame well-formed; OPTIONS, STARTUP(options), then AUTH_RESPONSE if asked
+	for _, g := range hs {
+		frames++
+		if g.err != nil {
+			bad(r, fmt.Sprintf("handshake:%s:v%d:malformed:%s", frame.OpName(g.header.Op), v, errClass(g.err)),
+				fmt.Sprintf("%s: %v | frame %s", cfgName, g.err, hexTrunc(g.raw)), replay)
+			outcomes["handshake-malformed-frame"]++
+			cl.Close()
+			return
+		}
+	}
+	if err != nil {
+		// a refused handshake is fine only if the version cannot express it (v1 + authentication)
+		if v == 1 && auth {
+			outcomes["handshake-refused-v1-auth"]++
+		} else {
+			bad(r, "handshake:failed", fmt.Sprintf("%s: %v", cfgName, err), replay)
+		}
+		cl.Close()
+		return
+	}
+	wantOps := []byte{frame.OpOptions, frame.OpStartup}
+	if auth {
+		wantOps = append(wantOps, frame.OpAuthResponse)
+	}
+	if len(hs) != len(wantOps) {
+		bad(r, "handshake:unexpected-frame-sequence", fmt.Sprintf("%s: %d frames", cfgName, len(hs)), replay)
+	} else {
+		for i, g := range hs {
+			if g.header.Op != wantOps[i] {
+				bad(r, "handshake:unexpected-frame-sequence", fmt.Sprintf("%s: frame %d is %s", cfgName, i, frame.OpName(g.header.Op)), replay)
+				continue
+			}
+			wantFlags := byte(0)
+			if v >= 5 {
+				wantFlags = frame.FlagBeta
+			}
+			if g.header.Op != frame.OpAuthResponse && g.header.Flags != wantFlags {
+				bad(r, "handshake:header.flags", fmt.Sprintf("%s: %s flags 0x%02x", cfgName, frame.OpName(g.header.Op), g.header.Flags), replay)
+			}
+			switch m := g.req.Msg.(type) {
+			case *frame.Startup:
+				want := []frame.KV{{Key: "CQL_VERSION", Value: "3.0.0"}}
+				if comp {
+					want = append(want, frame.KV{Key: "COMPRESSION", Value: "snappy"})
+				}
+				// DRIVER_NAME / DRIVER_VERSION are optional informational options
+				var core []frame.KV
+				for _, kv := range m.Options {
+					if kv.Key != "DRIVER_NAME" && kv.Key != "DRIVER_VERSION" {
+						core = append(core, kv)
+					}
+				}
+				if !sameKVSet(core, want) {
+					bad(r, "handshake:STARTUP:field:startup.options", fmt.Sprintf("%s: options %v", cfgName, m.Options), replay)
+				}
+			case *frame.AuthResponse:
+				if !bytes.Equal(m.Token, []byte("\x00user\x00pass")) {
+					bad(r, "handshake:AUTH_RESPONSE:field:auth.token", fmt.Sprintf("%s: token %q", cfgName, m.Token), replay)
+				}
+				if comp != (g.header.Flags&frame.FlagCompression != 0) && false {
+					// either is fine
+				}
+			}
+		}
+	}
+	outcomes["handshake-ok"]++
+	defer live.Close()
+
+	keyspace := ""
+	if useKS {
+		if err := live.UseKeyspace("ks1"); err != nil {
+			bad(r, "use:failed", err.Error(), replay)
+			return
+		}
+		got := nd.take()
+		calls++
+		frames += int64(len(got))
+		a := &ask{Version: v, Kind: kQuery, Stmt: `USE "ks1"`, P: paramAsk{Cons: uint16(gocql.Quorum)}}
+		la := &liveAsk{What: "use", Stmt: a.Stmt}
+		r.Case("live:"+cfgName+":use", true)
+		if !checkFrames(r, cfgName, la, got, []*ask{a}, []*expectation{expect(a)}) {
+			return
+		}
+		keyspace = "ks1"
+	}
+
+	preparedSeen := map[string]bool{}
+	for _, la := range liveAsks(v) {
+		la := la
+		calls++
+		var exp []*ask
+		var apiErr error
+		var panicked interface{}
+		func() {
+			defer func() { panicked = recover() }()
+			switch la.What {
+			case "register":
+				apiErr = live.Register()
+				exp = append(exp, &ask{Version: v, Kind: kRegister, Body: 0})
+			case "batch-v1":
+				b := live.S.NewBatch(gocql.LoggedBatch)
+				b.Query("INSERT INTO ks.t (a) VALUES (1)")
+				apiErr = live.ExecBatch(b).Close()
+			case "query":
+				q := live.S.Query(la.Stmt, apiValues(la.Vals)...).Consistency(gocql.Consistency(la.Cons))
+				if la.PageSize != nil {
+					q = q.PageSize(*la.PageSize)
+				}
+				if la.Paging > 0 {
+					q = q.PageState(pagingState(la.Paging))
+				}
+				if la.Serial != 0 {
+					q = q.SerialConsistency(gocql.SerialConsistency(la.Serial))
+				}
+				switch la.TS {
+				case tsOff:
+					q = q.DefaultTimestamp(false)
+				case tsFixed:
+					q = q.WithTimestamp(fixedTS)
+				case tsNegative:
+					q = q.WithTimestamp(negativeTS)
+				}
+				if la.Payload > 0 {
+					q = q.CustomPayload(payloadMap(la.Payload))
+				}
+				if la.Trace {
+					q = q.Trace(nopTracer{})
+				}
+				if la.NoSkip {
+					q = q.NoSkipMetadata()
+				}
+				apiErr = live.ExecQuery(q).Close()
+				dml := strings.HasPrefix(la.Stmt, "SELECT")
+				p := liveParamAsk(&la, la.Vals)
+				p.Keyspace = ""
+				if v >= 5 {
+					p.Keyspace = keyspace
+				}
+				if dml {
+					pa := &ask{Version: v, Kind: kPrepare, Stmt: la.Stmt, Tracing: la.Trace}
+					if v >= 5 {
+						pa.PrepKS = keyspace
+					}
+					exp = append(exp, pa, &ask{Version: v, Kind: kExecute, IDLen: 16, Tracing: la.Trace, Payload: la.Payload, P: p})
+				} else {
+					p.SkipMeta = false // skip_metadata is only requested for prepared statements
+					exp = append(exp, &ask{Version: v, Kind: kQuery, Stmt: la.Stmt, Tracing: la.Trace, Payload: la.Payload, P: p})
+				}
+			case "batch":
+				b := live.S.NewBatch(gocql.BatchType(la.BType))
+				b.Cons = gocql.Consistency(la.Cons)
+				for _, e := range la.Entries {
+					b.Query(e.Stmt, apiValues(e.Vals)...)
+				}
+				if la.Serial != 0 {
+					b.SerialConsistency(gocql.SerialConsistency(la.Serial))
+				}
+				switch la.TS {
+				case tsOff:
+					b.DefaultTimestamp(false)
+				case tsFixed:
+					b.WithTimestamp(fixedTS)
+				}
+				if la.Payload > 0 {
+					b.CustomPayload = payloadMap(la.Payload)
+				}
+				if la.Trace {
+					b.Trace(nopTracer{})
+				}
+				apiErr = live.ExecBatch(b).Close()
+				ba := &ask{Version: v, Kind: kBatch, BType: la.BType, Tracing: la.Trace, Payload: la.Payload, NEntries: len(la.Entries),
+					P: paramAsk{Cons: la.Cons, Serial: la.Serial, TS: la.TS}}
+				for _, e := range la.Entries {
+					ea := entryAsk{Prepared: len(e.Vals) > 0, Mode: modeNone}
+					if len(e.Vals) > 0 {
+						ea.Mode, ea.NVals = modePositional, len(e.Vals)
+						for _, lv := range e.Vals {
+							ea.ValKinds = append(ea.ValKinds, lv.Kind)
+						}
+						pa := &ask{Version: v, Kind: kPrepare, Stmt: e.Stmt, Tracing: la.Trace}
+						if v >= 5 {
+							pa.PrepKS = keyspace
+						}
+						// the same statement is prepared once per connection (prepared statement cache)
+						if !preparedSeen[e.Stmt] {
+							preparedSeen[e.Stmt] = true
+							exp = append(exp, pa)
+						}
+					}
+					ba.Entries = append(ba.Entries, ea)
+					ba.EntryStmts = append(ba.EntryStmts, e.Stmt)
+				}
+				exp = append(exp, ba)
+			}
+		}()
+		got := nd.take()
+		frames += int64(len(got))
+		key, _ := json.Marshal(la)
+		r.Case("live:"+cfgName+":"+string(key), len(got) > 0)
+		replay := map[string]interface{}{"connection": cfgName, "ask": la}
+		if la.What == "batch-v1" {
+			if len(got) != 0 || apiErr == nil {
+				bad(r, "BATCH:v1:sent-although-opcode-undefined-in-v1", fmt.Sprintf("err=%v frames=%d", apiErr, len(got)), replay)
+			}
+			outcomes["batch-v1-refused"]++
+			continue
+		}
+		exs := make([]*expectation, len(exp))
+		inexpr := false
+		for i, a := range exp {
+			exs[i] = expect(a)
+			if len(exs[i].inexpr) > 0 {
+				inexpr = true
+			}
+		}
+		if panicked != nil || apiErr != nil {
+			// a refusal is acceptable only when something inexpressible was asked; frames sent
+			// before the refusal must still be well-formed
+			for _, g := range got {
+				if g.err != nil {
+					bad(r, fmt.Sprintf("%s:malformed:%s", frame.OpName(g.header.Op), errClass(g.err)), fmt.Sprintf("%v | frame %s", g.err, hexTrunc(g.raw)), replay)
+				}
+			}
+			if !inexpr {
+				bad(r, la.What+":refused-expressible-request", fmt.Sprintf("error %v panic %v", apiErr, panicked), replay)
+			}
+			if panicked != nil {
+				outcomes["refused-by-panic"]++
+				// a panic inside Conn.exec leaves the stream allocated; continue on a fresh connection is not needed for the oracle
+			} else {
+				outcomes["refused-by-error"]++
+			}
+			continue
+		}
+		if checkFrames(r, cfgName, &la, got, exp, exs) {
+			outcomes["ok"]++
+		}
+	}
+	return
+}
